@@ -11,7 +11,7 @@ RUN_MODULE = "C11.Run"
 RUN_FN = "run_case"
 HARNESS_BIN = "c11"
 HARNESS_BINS = ["c11"]
-SHRINK_KEEP = ("new", "bad", "expect", "drain_check", "drain_check_x", "arrive", "peer_close", "sndbuf", "flush_check", "write", "bb_worker")
+SHRINK_KEEP = ("new", "bad", "expect", "drain_check", "drain_check_x", "arrive", "peer_close", "sndbuf", "flush_check", "write", "bb_worker", "bb_oversize")
 RULE = ("cases: delivery histories (d*: framed WorkerResponse stream, optionally with malformed frames in "
         "between, cut at seeded points into arrive/ev/turn triples), API-level op sequences (a*), writer "
         "sequences (w*), malformed-prefix sequences (m*); sizes straddle init, 2*init, max/2, max. "
@@ -201,6 +201,8 @@ def delivery_case(rng, cid, malformed):
         ops.append(["arrive", ch])
         ops.append(["ev", 1, 0])
         ops.append(["extract" if main_loop else "turn"])
+        if rng.random() < 0.12:
+            ops.append(["retype"])            # Channel::into with a partial frame possibly buffered
     ops.append(["drain_check_x" if main_loop else "drain_check"])
     return Case(cid, ops, dict(msgs=len(good), chunks=len(chunks)))
 
@@ -239,6 +241,8 @@ def api_case(rng, cid):
         elif r < 0.9:
             sz = rng.choice([6, init - 8, mx - 8, mx - 7, mx, 2 * mx, rng.randint(6, mx + 20)])
             ops.append(["write", payload_of_size(rng, max(6, sz))])
+        elif r < 0.94:
+            ops.append(["retype"])
         else:
             ops.append(["writable"])
     if rng.random() < 0.3:
@@ -323,8 +327,13 @@ def blocking_case(rng, cid):
     else:
         ops.append(["expect"] + good)
     ops.append(["arrive", stream])
-    for _ in good:
+    retype_after = rng.randrange(len(good)) if rng.random() < 0.5 else -1
+    for k, _ in enumerate(good):
         ops.append(["read_b"])
+        if k == retype_after:
+            # the worker's handshake (bin/src/worker.rs): the blocking read of the first message also pulled in
+            # what was written right behind it, then the channel is re-typed
+            ops.append(["retype"])
     for _ in range(rng.randint(0, 3)):
         ops.append(["write_b", payload_of_size(rng, max(6, rng.choice([6, init - 8, mx - 8, mx - 7, mx + 3, rng.randint(6, mx)])))])
     return Case(cid, ops, dict(msgs=len(good), chunks=1))
@@ -338,6 +347,10 @@ def bb_cases(rng, tier):
     for i in range(k):
         init, mx = rng.choice([(1024, 16384), (512, 8192), (2048, 32768)])
         out.append(Case("bb%d" % i, [["bb_worker", init, mx, rng.choice([120, 200, 300]), rng.choice([800, 1500])]], dict(msgs=0, chunks=0)))
+    # an answer that alone exceeds the ceiling (the list of metric names is ~320 bytes): error answer, worker goes on
+    for j in range({"quick": 1, "thorough": 3, "search": 2}.get(tier, 1)):
+        init, mx = [(256, 256), (128, 256), (64, 300)][j % 3]
+        out.append(Case("bo%d" % j, [["bb_oversize", init, mx]], dict(msgs=0, chunks=0)))
     return out
 
 
